@@ -71,6 +71,19 @@ def main(path):
             return 1
         print('does not reproduce on the current tree: ' + txt)
         return 0
+    if kind == 'regex':
+        from . import regexharness as R
+        cur = dict(R.token_regexes()).get(d['token'])
+        if cur is None:
+            print('token %s no longer exists' % d['token'])
+            return 0
+        slow, txt = R.replay(cur, d['prefix'], d['witness'])
+        print(txt)
+        if slow:
+            print('VIOLATION property=%s replay=%s' % (prop, path))
+            return 1
+        print('does not reproduce on the current tree')
+        return 0
     print(json.dumps(d, indent=1)[:2000])
     print('this replay file is informational (kind=%s); re-run ./check %s to re-decide it' % (kind, prop))
     return 2
